@@ -19,6 +19,7 @@ pub fn title_sets(tier: Tier, f1: (u32, u32), f2: (u32, u32), f4: (u32, u32)) ->
         sets.push(TitleSet { name: "e-commerce-titles".into(), l, titles: Titles::List(ecom.clone()), nctx: 2, block: 400 });
         sets.push(TitleSet { name: "lexicon-titles<=3w".into(), l, titles: Titles::Words { lex: lex_strings(l), maxw: 3 }, nctx: 3, block: 300 });
         sets.push(TitleSet { name: "lexicon-titles<=2w in a crowd of 25".into(), l, titles: Titles::Words { lex: lex_strings(l), maxw: 2 }, nctx: 4, block: 20 });
+        sets.push(TitleSet { name: "lexicon words in a crowd of 120 (limit 120, more than 100 records share the typed prefix)".into(), l, titles: Titles::Words { lex: lex_strings(l), maxw: 1 }, nctx: 5, block: 2 });
         sets.push(TitleSet { name: "long words 19..36 letters".into(), l, titles: Titles::List(long_word_titles(l)), nctx: 4, block: 4 });
         sets.push(TitleSet { name: "function-word prefix pairs: titles<=4w".into(), l, titles: Titles::Words { lex: fw_prefix_lexicon(l), maxw: tier.pick(3, 4) }, nctx: 2, block: 200 });
         sets.push(TitleSet { name: "long texts of 30 / 60 corpus words".into(), l, titles: Titles::List(vec![long_text(30, 0), long_text(30, 500), long_text(60, 100)]), nctx: 1, block: 1 });
